@@ -363,7 +363,7 @@ def plan(tier, seed):
                     if rep % 6 == 4:
                         c_['valdtype'] = ['int64', 'bool', 'int32'][(i // 6) % 3]
                     if rep % 6 == 5 or (rep % 6 == 2 and not sub):
-                        c_['geo'] = ['int', 'jitter', 'nano', 'int'][(i // 6) % 4]
+                        c_['geo'] = ['int', 'jitter', 'nano', 'offset', 'negative', 'wild', 'int'][(i // 6) % 7]
                     cases.append(c_)
                     i += 1
         step = 25 if nd == 3 else 50
